@@ -49,17 +49,17 @@ prop('C06',
      design_ref='DESIGN.md §5 C06')
 
 prop('C18',
-     modules=['LarkVerif.Indenter', 'LarkVerif.Props.C18'],
-     theorems=['Props.C18.balanced', 'Props.C18.process_resets', 'Props.C18.nl_in_brackets', 'Props.C18.indent_iff', 'IndProto.processFrom_balance', 'IndProto.popWhile_length'],
+     modules=['LarkVerif.Indenter', 'LarkVerif.IndenterRef', 'LarkVerif.Props.C18'],
+     theorems=['Props.C18.balanced', 'Props.C18.process_resets', 'Props.C18.nl_in_brackets', 'Props.C18.indent_iff', 'Props.C18.handle_nl_is_reference', 'Props.C18.stack_invariant_initially', 'Props.C18.stack_invariant_preserved', 'Props.C18.dedent_error_iff', 'IndProto.processFrom_balance', 'IndProto.popWhile_eq_filter'],
      fingerprints=['lark/indenter.py:Indenter.handle_NL', 'lark/indenter.py:Indenter._process', 'lark/indenter.py:Indenter.process'],
      rule='(a) random histories of 1-4 token streams (newline tokens with space/tab indentation and several physical lines, nested brackets, unmatched closers, '
           'streams abandoned after k outputs, failing streams) processed by ONE real Indenter object (tab_len 8/4/1) vs the Lean model restarted from its initial state '
           'for each stream: emitted INDENT/DEDENT/token sequence, DedentError/AssertionError and the point where it is raised; (b) random source texts lexed through '
           'Lark(postlex=Indenter) vs CPython tokenize (first logical line unindented, spaces only). Non-trivial = the stream contains a newline token; distinct by canonical hash.',
-     not_proved=['equality with the Python language reference algorithm is checked against CPython tokenize, not yet a Lean theorem (indenter_eq_reference)'],
+     not_proved=['the reference algorithm is stated per logical line (handle_nl_is_reference); its agreement with CPython\'s tokenizer itself is compared on generated sources, not proved'],
      assumptions=['str.rsplit/count as specified; tabs count tab_len columns each (lark\'s documented rule, not CPython\'s)'],
      level_text='Theorems: every stream that does not raise has equally many INDENT and DEDENT (for all streams, by induction over the verbatim model of handle_NL/_process/process); process is a '
-                'function of the stream alone (state reset); NL inside brackets emits nothing; a deeper line emits exactly one INDENT. The model is run against the real Indenter on random '
+                'function of the stream alone (state reset); NL inside brackets emits nothing; handle_NL equals the Python language reference\'s stack algorithm (stated with membership and filters) on every reachable stack, DedentError iff the column is not an open level. The model is run against the real Indenter on random '
                 'histories of streams on one object, and the real Indenter against CPython tokenize.',
      level_note='Trusted: Lean kernel, standard axioms, harness. Modelled not verified: Token/str methods; CPython tokenize is an extra oracle only.',
      technique='Lean 4 invariant proof over the Indenter state machine + differential correspondence (histories on one object) + CPython tokenize oracle',
